@@ -48,6 +48,8 @@ def make_cells(ck):
             # posterior 1000x narrower than the prior (sd 1e-3 in cube units, ~30 temperature steps)
             if kern == "tpcn":     # (RWM with the default step budget has a large finite-N error on this target: not a fair cell)
                 cells.append(dict(target="gauss2", N=N, n_total=8 * N, mode="vec", kernel=kern, resample="mult", clustering=False, tkw=dict(half=500.0, rho=0.5)))
+    # a run stopped half-way and continued by a new sampler with another particle count (stored batches of different sizes)
+    cells.append(dict(target="gauss2", N=128, n_total=1024, mode="vec", kernel="tpcn", resample="mult", clustering=False, continue_with=512))
     return cells
 
 
